@@ -189,8 +189,15 @@ Fixpoint stmt_size (s : stmt) : nat :=
 Definition max_pos : pos := (0, 0).
 
 (** [generate_unresolved] for a program without sub-programs: statements, a final mark, HALT *)
-Definition gen_program (p : program) : gout :=
-  let g := fold_left (fun g s => gen_stmt (S (stmt_size s)) s g) p (mk_gout [] []) in
+(** the checker declares every implicitly declared variable in a DIM statement of its own placed in
+    front of the program; the list (in the checker's order of discovery, with the position of the first use)
+    is an input of the model *)
+Definition gen_dims (dims : list (name * pos)) : gout :=
+  fold_left (fun g d => emit (mark g) [(IAlloc (snd (fst d)), snd d); (IVarPathName (fst d), snd d); (ICopyAToVarPath, snd d)])
+            dims (mk_gout [] []).
+
+Definition gen_program (dims : list (name * pos)) (p : program) : gout :=
+  let g := fold_left (fun g s => gen_stmt (S (stmt_size s)) s g) p (gen_dims dims) in
   emit (mark g) [(IHalt, max_pos)].
 
 (** ** Label resolution: the address of a label is the index of its LAST definition *)
